@@ -232,6 +232,45 @@ Theorem C08_callback_checked : forall T S wv, discipline_ok S T wv = true ->
 Proof. exact callback_checked. Qed.
 Print Assumptions C08_callback_checked.
 
+(* Static storage.  A variable with static storage duration is ONE location shared by all objects and all threads:
+   if the class given to that one location is respected, accesses made through different objects by different threads are
+   ordered (C08_static_storage_sound, for all traces); treating it like a per-object member - "confined to the loop of the
+   object it is reached through" - allows a race (C08_static_per_object_confinement_refuted: Buffer::readFd's extrabuf or
+   AppendFile's buffer made static). *)
+Theorem C08_static_storage_sound : forall cls owner tr addr v,
+  wf_trace tr -> respects cls owner tr -> shared_static addr v ->
+  forall o1 o2 i j ti tj ki kj, i < j ->
+    nth_error tr i = Some (EAcc ti (addr o1 v) ki) -> nth_error tr j = Some (EAcc tj (addr o2 v) kj) ->
+    ti <> tj -> (ki = W \/ kj = W) -> hb tr i j.
+Proof. exact static_storage_sound. Qed.
+Print Assumptions C08_static_storage_sound.
+
+Theorem C08_static_per_object_confinement_refuted :
+  exists (tr : trace) (addr : nat -> nat -> loc) (owner_of_obj : nat -> tid) v i j,
+    shared_static addr v /\ wf_trace tr /\
+    nth_error tr i = Some (EAcc (owner_of_obj 1) (addr 1 v) W) /\
+    nth_error tr j = Some (EAcc (owner_of_obj 2) (addr 2 v) W) /\
+    conflicting tr i j /\ ~ hb tr i j /\ ~ hb tr j i.
+Proof. exact static_per_object_confinement_races. Qed.
+Print Assumptions C08_static_per_object_confinement_refuted.
+
+(* THE generated-fact obligation for static storage: every object the compiler places in a writable data section of
+   muduo/base, muduo/net, muduo/net/poller (inventory regenerated from the ELF symbol tables of the current sources) has a
+   class in the committed table and lives up to it - a new static variable fails this until someone classifies it. *)
+Theorem C08_static_storage_checked : static_violations table = [].
+Proof. vm_compute. reflexivity. Qed.
+Print Assumptions C08_static_storage_checked.
+
+Theorem C08_static_checked : forall T S wv, discipline_ok S T wv = true ->
+  forall sv, In sv (t_statics T) ->
+    (exists c, lookup1 (sv_name sv) (t_static_classes T) = Some c /\ static_ok sv c = true) \/
+    (exists w, In w wv /\ v_class w = "static"%string /\ v_what w = sv_name sv).
+Proof. exact static_checked. Qed.
+Print Assumptions C08_static_checked.
+
+Example C08_ex_static_inventory_nontrivial : Nat.leb 20 (List.length static_inventory) = true.
+Proof. vm_compute. reflexivity. Qed.
+
 (* every recorded finding is still present (a waiver that no longer matches anything must be removed) - NOT a theorem:
    a repaired tree must not raise an alarm; bin/check reports stale waivers as a note. *)
 
